@@ -372,8 +372,21 @@ func (c *Ctx) checkAttachmentLinking() {
 				}
 				return false
 			}
-			cut := core.FailEdges(fn, successGuard(site))
-			found, w := core.PathAvoiding(fn, site.(ssa.Instruction), core.IsReturn, isDecision, cut)
+			// on the success paths of the row insert (its error nil, however that is tested later)
+			found := false
+			var w ssa.Instruction
+			if errV := errValueOf(site); errV != nil {
+				wr := core.NilWalkAfterWith(fn, site.(ssa.Instruction), core.NilFacts{errV: true}, nil, isDecision, func(in ssa.Instruction, _ core.NilFacts) {
+					if core.IsReturn(in) {
+						found, w = true, in
+					}
+				})
+				if wr.Overflow {
+					found = true
+				}
+			} else {
+				found = true
+			}
 			r.Check(!found, "C16.5-attachments-linked", fk(fn)+": every return after the row was stored passes the attachment-link decision", c.pos(site), "",
 				"after the message row was stored the function can return"+posOf(c, w)+" without considering its attachments: the uploads stay unlinked and are garbage-collected while the message exists")
 			// and the link call is reachable from the decision's non-empty edge
